@@ -83,9 +83,12 @@ fn run(ctx: &mut Ctx) {
         let end_with_marker = rng.below(3) == 0;
         let mut fault_desc = "none".to_string();
         for b in 0..nb {
-            let hw = if rng.chance(0.1) { 0 } else { 1 + rng.below(17) as u32 };
+            // (a quiet board: no wrap, no edge - its stream is the counter-0 marker alone, possibly among scaler blocks)
+            let quiet = !big && rng.chance(0.08);
+            let early_heavy = big && b == 0 && rng.bool(); // more than 65 536 entries in front of the counter-0 marker
+            let hw = if quiet || early_heavy { 1 } else if rng.chance(0.1) { 0 } else { 1 + rng.below(17) as u32 };
             // now and then one board is busy: more than 2^16 (and 2^17) FIFO entries in its stream
-            let ne = if big && b == 0 { 66_000 + rng.usize(80_000) } else if rng.chance(0.1) { 1000 + rng.usize(1000) } else { 30 + rng.usize(170) };
+            let ne = if quiet { 0 } else if early_heavy { 140_000 + rng.usize(20_000) } else if big && b == 0 { 66_000 + rng.usize(80_000) } else if rng.chance(0.1) { 1000 + rng.usize(1000) } else { 30 + rng.usize(170) };
             let frac = *rng.pick(&[0.0, 0.1, 0.1, 0.3]);
             displaced_any |= frac > 0.0;
             let mut items = stream(rng, hw, ne, frac);
